@@ -45,6 +45,7 @@ theorem tie_h_rest_hist_persistence_jsondb_jsondb_go : Extracted.Hist.h_rest_his
 theorem tie_h_rest_hist_persistence_jsondb_writer_go : Extracted.Hist.h_rest_hist_persistence_jsondb_writer_go = Canon.Hist.h_rest_hist_persistence_jsondb_writer_go := by decide +kernel
 theorem tie_h_rest_hist_persistence_filecache_filecache_go : Extracted.Hist.h_rest_hist_persistence_filecache_filecache_go = Canon.Hist.h_rest_hist_persistence_filecache_filecache_go := by decide +kernel
 theorem tie_h_rest_hist_persistence_model_status_go : Extracted.Hist.h_rest_hist_persistence_model_status_go = Canon.Hist.h_rest_hist_persistence_model_status_go := by decide +kernel
+theorem tie_h_rest_hist_persistence_model_node_go : Extracted.Hist.h_rest_hist_persistence_model_node_go = Canon.Hist.h_rest_hist_persistence_model_node_go := by decide +kernel
 theorem tie_dateFormat : Extracted.Hist.dateFormat = Canon.Hist.dateFormat := by decide +kernel
 theorem tie_dateTimeFormat : Extracted.Hist.dateTimeFormat = Canon.Hist.dateTimeFormat := by decide +kernel
 theorem tie_extDat : Extracted.Hist.extDat = Canon.Hist.extDat := by decide +kernel
@@ -94,6 +95,7 @@ theorem tie_requestIDLenSafe : Extracted.Hist.requestIDLenSafe = Canon.Hist.requ
 #print axioms tie_h_rest_hist_persistence_jsondb_writer_go
 #print axioms tie_h_rest_hist_persistence_filecache_filecache_go
 #print axioms tie_h_rest_hist_persistence_model_status_go
+#print axioms tie_h_rest_hist_persistence_model_node_go
 #print axioms tie_dateFormat
 #print axioms tie_dateTimeFormat
 #print axioms tie_extDat
